@@ -22,6 +22,7 @@ def parseFx (code : String) (p : Nat) : Fx :=
   | "t" => .tempo p
   | "d" => .delay p
   | "j" => .jump p
+  | "r" => .rowdelay p
   | _ => .none
 
 def parsePat (nrows : Nat) (items : List String) : List Fx :=
